@@ -3,6 +3,7 @@ from dataclasses import dataclass
 from cached_property import cached_property
 
 import numpy as np
+from scipy.linalg import expm
 from scipy.optimize import least_squares
 
 from pb_bss.distribution.utils import _ProbabilisticModel
@@ -156,12 +157,18 @@ class ComplexBingham(_ProbabilisticModel):
                 covariance_eigenvalues, eps=eps
             )
 
-        deltas = covariance_eigenvalues[..., None] - covariance_eigenvalues[..., None, :]
-        D = deltas.shape[-1]
+        D = covariance_eigenvalues.shape[-1]
 
-        deltas[..., range(D), range(D)] = 1
-        a = 1 / np.prod(deltas, axis=-1)
-        return 2 * np.pi**D * np.sum(a * np.exp(covariance_eigenvalues), axis=-1)
+        # sum_j exp(l_j) / prod_{i != j} (l_j - l_i) is the divided difference
+        # exp[l_1, ..., l_D]. Evaluated as a sum it cancels catastrophically
+        # when eigenvalues are close (D >= 5, gaps of 1e-3: no correct digit).
+        # Opitz' formula is stable: the divided difference is the upper right
+        # entry of expm(diag(l) + superdiagonal of ones).
+        shift = np.amax(covariance_eigenvalues, axis=-1)
+        Z = np.zeros((*covariance_eigenvalues.shape, D))
+        Z[..., range(D), range(D)] = covariance_eigenvalues - shift[..., None]
+        Z[..., range(D - 1), range(1, D)] = 1
+        return 2 * np.pi**D * np.exp(shift) * expm(Z)[..., 0, D - 1]
 
     @classmethod
     def _remove_duplicate_eigenvalues(cls, covariance_eigenvalues, eps=1e-8):
